@@ -165,9 +165,9 @@ func verifSameNode(a, b verifast.Node) bool {
 }
 
 var verifSkeletons = [][]string{
-	{"a:", "1", "b:", "2"},
+	{"a:", "1", "\nb:", "2"},
 	{"a:", "{", "b:", "1", "}"},
-	{"[", "1", "2", "]"},
+	{"[", "1,", "2", "]"},
 	{"a:", "1", "//c", "\nb:", "2"},
 	{"//c", "\na:", "1"},
 	{"a:", "b:", "1"},
@@ -177,7 +177,7 @@ var verifSkeletons = [][]string{
 	{"import", "\"x\""},
 	{"package", "p", "\na:", "1"},
 	{"a:", "[", "]"},
-	{"@a()", "a:", "1", "@b()"},
+	{"@a()", "\na:", "1", "@b()"},
 }
 
 func verifHarnessFormatIdempotent() {
@@ -188,11 +188,22 @@ func verifHarnessFormatIdempotent() {
 		if t < 0 {
 			t = verifChoice(len(verifSkeletons))
 		}
+		if verifParam("NC", 0) == 1 {
+			// skeletons with a comment are left out: see DESIGN.md section 8, item 12
+			verifAssume(t != 3 && t != 4)
+		}
 		sk := verifSkeletons[t]
 		g := verifParam("G", 1) // symbolic bytes per gap
 		gaps := verifParam("GAPS", len(sk)+1)
+		// PAIR=1: exactly two gaps are symbolic; which two is an explored choice.
+		gi, gj := -1, -1
+		if verifParam("PAIR", 0) == 1 {
+			gaps = 0
+			gi = verifChoice(len(sk))
+			gj = gi + 1 + verifChoice(len(sk)-gi)
+		}
 		for i := 0; i <= len(sk); i++ {
-			if i < gaps {
+			if i < gaps || i == gi || i == gj {
 				src = append(src, verifBytesUpTo(g)...)
 			} else if i > 0 && i < len(sk) {
 				src = append(src, ' ')
